@@ -627,6 +627,16 @@ def restrict_tree(rt, bt):
     bfix = bool(bt[3]) and bt[3][0] == bt[2]
     rt[1] = [restrict_tree(e, bt[1][i] if bfix and i < len(bt[1]) else bt[1][0]) for i, e in enumerate(rt[1])]
     rt[-1] = [rt[-1][0], [] if not rt[-1][2] else rt[-1][1], rt[-1][2]]
+  elif rt[0] == 9 and bt[0] == 9:
+    def flat(u):
+      out = []
+      for c in u[1]: out += flat(c) if c[0] == 9 else [c]
+      return out
+    bc = flat(bt)
+    rt[1] = [next((restrict_tree(c, x) for x in bc if x[0] == c[0] and c[0] != 9), c) for c in rt[1]]
+  elif rt[0] != 9 and bt[0] == 9:
+    for x in bt[1]:
+      if x[0] == rt[0]: return restrict_tree(rt, x)
   return rt
 
 def shared_compat(b, c):
@@ -972,9 +982,10 @@ def oracle_case(case, hit):
   elif op == 'apply':
     s = build(case['spec'])
     before = copy.deepcopy(s)
+    eq0 = (s == before)
     out_tree, out, ok = impl_apply(s, case['value'], bool(case.get('partial', 0)))
     if ok: check_apply(s, case['spec'], case['value'], bool(case.get('partial', 0)), out, hit, case)
-    if not (s == before) or safe_render(s) != case['spec']:
+    if (s == before) != eq0 or safe_render(s) != case['spec']:
       hit('C04/spec-unchanged/%s/apply' % kind(case['spec']), 'apply changed the spec', case)
   elif op == 'default':
     s = build(case['spec'])
@@ -1028,6 +1039,8 @@ def run(ctx):
     ctx.hist('spec_kind', kind(t)); ctx.hist('spec_mods', 'noneable=%d default=%d frozen=%d' % (_m(t)[0], int(bool(_m(t)[1])), _m(t)[2]))
     s = build(t)
     before = copy.deepcopy(s)
+    eq0 = (s == before)      # Union.__eq__ is not reflexive on copies for some candidate lists; compare with this
+    if not eq0: ctx.hist('spec_eq_copy', 'spec != deepcopy(spec) before any apply')
     vals = [w['value'] for w in CORPUS_APPLY if w['spec'] == t] + values_for(t, rng, ctx.scale(24, 40))
     for vt in vals:
       for partial in ((0, 1) if rng.random() < 0.25 else (0,)):
@@ -1038,7 +1051,7 @@ def run(ctx):
         napply += 1
         if ok:
           check_apply(s, t, vt, bool(partial), out, hit, d)
-        if not (s == before):
+        if (s == before) != eq0 or (napply % 7 == 0 and safe_render(s) != t):
           hit('C04/spec-unchanged/%s/apply' % kind(t), 'apply(%s) changed the spec %s' % (show_value(vt), show(t)), d)
           s = build(t); before = copy.deepcopy(s)
     if safe_render(s) != t:
